@@ -141,4 +141,10 @@ def gen(tier, rng, boost=1):
             for ns in (0, 1, 499999999, 500000000, 500000001, 999999999, rng.randrange(10 ** 9)):
                 op = "bin.ts_back" if rng.random() < 0.5 else "bin.dur_back"
                 ops.append(f"{op} {prec}:{rep} {s} {ns}")
+    # "both survive the MsgPack binary timestamp form unchanged": time points and durations at every layout threshold of the Timestamp
+    # extension (2^32, 2^34 +-1, negative, sub-second) saved and loaded through the real MsgPack archive, memory and stream
+    for _ in range((120 if tier == "quick" else 4000) * boost):
+        for target in ("chrono", "vchrono"):
+            for src in ("mem", "stream"):
+                ops.append(f"rt.any mp {src} {target} {rng.randrange(1, 2 ** 31)}")
     return ops
